@@ -127,6 +127,7 @@ func NewCompositeSetup(w *World, g GenOpts) *Setup {
 	}
 	tp.SetNamespace = t.Pick(2, "setns") == 1
 	tp.NoLabels = cfg.GenerateSelector && t.Pick(2, "nolabels") == 1
+	tp.WithStatus = t.Pick(5, "withstatus") == 4
 	s.TP = tp
 	mustCreate(w.Store, ResCompositeCtl, "", cfg.Object(), "setup")
 	s.Progs = Programs{"cc": &Program{Sync: tp.SyncResponse, Finalize: tp.FinalizeResponse}}
@@ -348,6 +349,12 @@ func (s *Setup) ChildChaos(b *EnvBudget) []EnvOp {
 			EnvOp{"drift-owned " + id, func(w *World) {
 				b.take()
 				EditObject(w, res, ns, name, "user", func(o Object) { setPath(o, fmt.Sprintf("drift%d", w.step), childContentField(res), "color") })
+			}},
+			EnvOp{"drift-list " + id, func(w *World) {
+				b.take()
+				EditObject(w, res, ns, name, "user", func(o Object) {
+					setPath(o, []interface{}{"--alpha", fmt.Sprintf("--drift%d", w.step)}, childContentField(res), "args")
+				})
 			}},
 			EnvOp{"drift-foreign " + id, func(w *World) {
 				b.take()
